@@ -649,6 +649,125 @@ def check_c09(tier, seed):
     return res.finish()
 
 
+def check_c16(tier, seed):
+    res = Result("C16", tier, seed)
+    wd = workdir("C16")
+    cfg = "MC_C16.cfg" if tier == "quick" else "MC_C16_thorough.cfg"
+    out = tlc_run(os.path.join(SPEC, "mc", "MC_C16.tla"), os.path.join(SPEC, "mc", cfg), os.path.join(wd, "mc.out"),
+                  os.path.join(wd, "md"), workers=8, timeout=3000, xmx="12g")
+    res.add_mc(tlc_summary(out))
+    hist = tlc_lines(out, "CASE ")
+    n_all = len(hist)
+    rnd = random.Random(seed)
+    lim = 2500 if tier == "quick" else 20000
+    if len(hist) > lim:
+        rnd.shuffle(hist)
+        hist = hist[:lim]
+    # probe registry and base settings: taken from the specification (MC_C16.ProbeReg is what ScaleInfo.tla registers); here via the corpus-free route:
+    probe = tlc_eval_probe(wd)
+    recs = []
+    for i, h in enumerate(hist):
+        calls = []
+        for c in h["calls"]:
+            d = dict(c)
+            if c["op"] in ("insert", "insert_if_not_exists"):
+                d["src"], d["dst"] = c["srcText"], c["dstText"]
+                d["srcT"], d["dstT"] = c["src"], c["dst"]
+            d["elems"] = [dict(e, src=e["srcText"], dst=e["dstText"], srcT=e["src"], dstT=e["dst"]) for e in c["elems"]]
+            calls.append(d)
+        # the judge sees the structured form, the harness the text form
+        recs.append({"case": i, "reg": probe["reg"], "settings": probe["settings"], "probes": [["probe", "A"], ["probe", "B"], ["probe", "G"], ["probe", "Nope"]],
+                     "calls": h["calls"], "calls_text": calls})
+    write_ndjson(os.path.join(wd, "cases.ndjson"), [dict(r, calls=r["calls_text"]) for r in recs])
+    harness_run("builder", os.path.join(wd, "cases.ndjson"), os.path.join(wd, "obs0.ndjson"), jobs=12)
+    obs = read_ndjson(os.path.join(wd, "obs0.ndjson"))
+    for o in obs:
+        if o.get("crash"):
+            res.violations.append((f"C16: harness worker {o['crash']}", recs[o["i"]]))
+        elif o.get("setup") != "ok":
+            raise ToolError(f"builder harness setup failed: {o.get('setup')}")
+        else:
+            o["input"] = {k: v for k, v in recs[o["i"]].items() if k != "calls_text"}
+    if res.violations:
+        return res.finish()
+    write_ndjson(os.path.join(wd, "obs.ndjson"), obs)
+    verdicts, summ = tv_parallel(os.path.join(SPEC, "tv", "TV_C16.tla"), os.path.join(SPEC, "tv", "TV_C16.cfg"),
+                                 os.path.join(wd, "obs.ndjson"), wd, nproc=8, workers=2)
+    res.add_mc(summ)
+    if len(verdicts) != len(recs):
+        raise ToolError(f"TV judged {len(verdicts)} of {len(recs)} histories")
+    account(res, "C16", verdicts_with_fam(verdicts), lambda cid: recs[cid], ["C16."], load_findings())
+    res.traces = len(verdicts)
+    res.evaluations = sum(len(r["calls"]) for r in recs)
+    res.nontrivial = sum(1 for v in verdicts if v["nontrivial"])
+    res.exhaustive = n_all == len(recs)
+    res.extra["histories_model_checked"] = n_all
+    res.rule = ("MC: every history of the 17-call alphabet (global / per-type / recursive derives and attributes; insert, insert-if-absent, extend with valid arguments, a relative target, "
+                "parenthesised generics, a non-identifier source argument, a non-path target argument, a crate:: target) up to length 3 (quick) / 4 (thorough) with the invariants "
+                "'derives are unions by comprehension over the history', 'rule = last accepted insert', 'rejected call changes nothing', 'one rule per path', 'documented kinds'; "
+                "TV: a seeded sample (quick) of the maximal histories is replayed call by call on the real builders, after every call the result kind and the observable state "
+                "(iter/contains, default and listed derives, derives and resolved paths generated for a probe registry) are compared by TLC with the abstract state after the same action; "
+                "non-trivial = history contains a substitute call; distinct by history")
+    res.samples = [[c["op"] + ":" + (c.get("srcText") or PathOf(c)) for c in r["calls"]] for r in recs[:: max(1, len(recs) // 3)][:3]]
+    res.assumptions = ["TLC and CommunityModules", "harness projection (syn)", "ScaleInfo.tla (E0) for the probe registry"]
+    return res.finish()
+
+
+def PathOf(c):
+    return "::".join(c["path"]["segs"])
+
+
+def tlc_eval_probe(wd):
+    """The probe registry and base settings are constants of the specification: let TLC print them."""
+    mod = os.path.join(wd, "Probe.tla")
+    open(mod, "w").write("""---- MODULE Probe ----
+EXTENDS MC_C16
+ProbeEmit == PrintT("PROBE " \\o ToJson([reg |-> ProbeReg, settings |-> Base]))
+====
+""")
+    open(os.path.join(wd, "Probe.cfg"), "w").write("CONSTANTS\n  MAXLEN = 0\nSPECIFICATION Spec\nINVARIANTS ProbeEmit\nCHECK_DEADLOCK FALSE\n")
+    shutil.copy(os.path.join(SPEC, "mc", "MC_C16.tla"), os.path.join(wd, "MC_C16.tla"))
+    out = tlc_run(mod, os.path.join(wd, "Probe.cfg"), os.path.join(wd, "probe.out"), os.path.join(wd, "mdp"), workers=1, timeout=300)
+    return tlc_lines(out, "PROBE ")[0]
+
+
+def check_c11(tier, seed):
+    res = Result("C11", tier, seed)
+    wd = workdir("C11")
+    out = tlc_run(os.path.join(SPEC, "mc", "MC_C11.tla"), os.path.join(SPEC, "mc", "MC_C11.cfg"), os.path.join(wd, "mc.out"),
+                  os.path.join(wd, "md"), workers=8, timeout=1800, xmx="8g")
+    res.add_mc(tlc_summary(out))
+    cases = tlc_lines(out, "CASE ")
+    recs = [{"case": i, "reg": c["reg"], "settings": c["settings"][0], "queries": c["queries"], "repeat": 3} for i, c in enumerate(cases)]
+    write_ndjson(os.path.join(wd, "cases.ndjson"), recs)
+    harness_run("validate", os.path.join(wd, "cases.ndjson"), os.path.join(wd, "obs.ndjson"), jobs=12)
+    obs = read_ndjson(os.path.join(wd, "obs.ndjson"))
+    for o in obs:
+        if o.get("crash"):
+            res.violations.append((f"C11: harness worker {o['crash']}", recs[o["i"]]))
+        elif o.get("setup") != "ok":
+            raise ToolError(f"validate harness setup failed: {o.get('setup')}")
+    if res.violations:
+        return res.finish()
+    verdicts, summ = tv_parallel(os.path.join(SPEC, "tv", "TV_C11.tla"), os.path.join(SPEC, "tv", "TV_C11.cfg"),
+                                 os.path.join(wd, "obs.ndjson"), wd, nproc=8, workers=2)
+    res.add_mc(summ)
+    if len(verdicts) != len(recs):
+        raise ToolError(f"TV judged {len(verdicts)} of {len(recs)} cases")
+    account(res, "C11", verdicts_with_fam(verdicts), lambda cid: recs[cid], ["C11."], load_findings())
+    res.traces = len(verdicts)
+    res.evaluations = len(verdicts) * 3
+    res.nontrivial = sum(1 for v in verdicts if v["nontrivial"])
+    res.exhaustive = True
+    res.rule = ("MC: two registries (paths sharing final identifiers, a same-path family, prelude paths) x every selection of up to 3 entries from a pool of 9 specific / recursive derive and "
+                "attribute registrations over known and unknown paths (the same path in both maps, derives and attributes mixed) x 5 substitute selections; the validation loop is a state "
+                "machine whose map iteration order is nondeterministic and every order must yield - as sets - the reference result defined by comprehension; TV: every case is validated 3x by "
+                "the real crate with freshly built settings and 6 similar-path queries are answered; TLC compares with the reference; non-trivial = some unknown path; distinct by (registry, settings)")
+    res.samples = [{"calls": [c["op"] + ":" + "::".join(c["path"]["segs"]) for c in r["settings"]["derive_calls"]], "subs": len(r["settings"]["subs"])} for r in recs[:: max(1, len(recs) // 3)][:3]]
+    res.assumptions = ["TLC and CommunityModules", "harness: paths rendered as token strings without spaces"]
+    return res.finish()
+
+
 def check_c10(tier, seed):
     res = Result("C10", tier, seed)
     wd = workdir("C10")
@@ -799,7 +918,7 @@ def check_e0_cmd(tier, seed):
     return 0
 
 
-CHECKS = {"C15": check_c15, "E0": check_e0_cmd, "C01": check_c01, "C02": check_c02, "C03": check_c03, "C04": check_c04, "C10": check_c10, "C05": check_c05, "C17": check_c17, "C18": check_c18, "C07": check_c07, "C08": check_c08, "C09": check_c09}
+CHECKS = {"C15": check_c15, "E0": check_e0_cmd, "C01": check_c01, "C02": check_c02, "C03": check_c03, "C04": check_c04, "C10": check_c10, "C05": check_c05, "C17": check_c17, "C18": check_c18, "C07": check_c07, "C08": check_c08, "C09": check_c09, "C16": check_c16, "C11": check_c11}
 
 
 def selfcheck():
